@@ -217,6 +217,54 @@ var badLines = []string{
 	"Zbad.example.com,a.ns.bad.example.com,dns.bad.example.com,,,,,,,,\\x", "+x.example.com,1.2.3.4,,,\\x", "Xbogus.example.com,1.2.3.4",
 }
 
+// white space that may end a line: single bytes and UTF-8 sequences bytes.TrimSpace would remove
+// (NBSP, NEL, EM SPACE, IDEOGRAPHIC SPACE); a CR only where bufio.ScanLines leaves it alone
+var wsTailBytes = []string{" ", "\t", "\v", "\f", "\x85", "\xa0", "\xc2\xa0", "\xc2\x85", "\xe2\x80\x83", "\xe3\x80\x80",
+	"  ", " \t", "\t ", " \r", "\r ", "\r\t"}
+
+type wsFile struct {
+	lines [][]byte
+	class string
+	wf    bool
+}
+
+func wsFiles() []wsFile {
+	bl := func(ss ...string) [][]byte {
+		var r [][]byte
+		for _, s := range ss {
+			r = append(r, []byte(s))
+		}
+		return r
+	}
+	shapes := []string{
+		"'motd%d.example.org,hello world%s",      // TXT ending in white space
+		":gen%d.example.org,99,abc%s",            // generic record data
+		"+www%d.example.org,192.0.2.1,300%s",     // TTL: the number does not parse, the default applies
+		"+loc%d.example.org,192.0.2.1,300,,ab%s", // location of three bytes or more: none
+		"+wt%d.example.org,192.0.2.1,300,,,7%s",  // weight
+		"Ccn%d.example.org,target.example.org%s",
+		"'empty%d.example.org,%s",
+	}
+	var tail []string
+	for i, t := range wsTailBytes {
+		tail = append(tail, fmt.Sprintf(shapes[i%len(shapes)], i, t), fmt.Sprintf(shapes[(i+3)%len(shapes)], i, t))
+	}
+	tail = append(tail, "Zexample.org,a.ns.example.org,dns.example.org,,7200", "&example.org,192.0.2.53,a,3600")
+	skips := []string{"Zexample.org,a.ns.example.org,dns.example.org,5,7200", "&example.org,192.0.2.53,a,3600",
+		" ", "\t", " \t", "\r", "  \r", "\v", "    ", "  \xa0", "\f\r", "", "#c", "  # indented comment",
+		"  +lead.example.org,192.0.2.7,300", " 'lead2.example.org,text ", "   &example.org,,b.ns.example.org"}
+	return []wsFile{
+		{bl(tail...), "wsfile-tail", true},
+		{bl(tail...), "wsfile-tail", true},
+		{bl(skips...), "wsfile-skip", true},
+		{bl("+a.example.org,192.0.2.1", "\t+www.example.org,192.0.2.1", "+c.example.org,192.0.2.1"), "badfile-wslead", false},
+		{bl("\t\t", "+c.example.org,192.0.2.1"), "badfile-wslead", false},
+		{bl("\xc2\xa0#c", "+c.example.org,192.0.2.1"), "badfile-wslead", false},
+		// a line that still ends in CR after ScanLines: written through with it, the re-read drops it
+		{bl("'cr.example.org,abc\r\r", "+c.example.org,192.0.2.1"), "wsfile-crcr", false},
+	}
+}
+
 type gen struct{ r *hlib.Rng }
 
 const lowAlpha = "abcdefghijklmnopqrstuvwxyz0123456789-_"
